@@ -1,5 +1,6 @@
 import JjModel.Lemmas.RevsetFork
 import JjModel.Lemmas.RevsetHeadsRange
+import JjModel.Lemmas.RevsetReach
 import JjModel.Lemmas.RevsetLatest
 /-!
   C19 lemmas, part 7: soundness of the engine model `eval` against the plan semantics
@@ -9,8 +10,7 @@ namespace JjModel.Revset
 
 mutual
 /-- The part of `ResolvedExpression` for which every combinator has a proved specification,
-with all commit literals inside the graph.  Not covered (modelled, compared with jj on every
-run, but without a soundness proof): `Reachable`. -/
+with all commit literals inside the graph: all of the modelled `ResolvedExpression`. -/
 def OkR (g : Graph) : RExpr → Prop
   | .commits l => ∀ x ∈ l, x < g.size
   | .ancestors h _ _ _ => OkR g h
@@ -29,7 +29,7 @@ def OkR (g : Graph) : RExpr → Prop
   | .diff a b => OkR g a ∧ OkR g b
   | .forkPoint x => OkR g x
   | .latest x _ => OkR g x
-  | .reachable _ _ => False
+  | .reachable s d => OkR g s ∧ OkR g d
 def OkP (g : Graph) : PExpr → Prop
   | .set x => OkR g x
   | .notIn x => OkP g x
@@ -278,7 +278,20 @@ theorem eval_spec (g : Graph) (hw : g.WF) : (r : RExpr) → OkR g r → EvalOk g
       rw [hm] at hp
       simp only [denoteR] at hp
       exact ih.lt p ((ih.mem p).2 hp.1)
-  | .reachable _ _, hok => absurd hok (by simp [OkR])
+  | .reachable s d, hok => by
+    have ihs := eval_spec g hw s hok.1
+    have ihd := eval_spec g hw d hok.2
+    have hD : (fun x => x ∈ eval g d) = denoteR g d := funext fun x => propext (ihd.mem x)
+    have hm : ∀ p, p ∈ eval g (.reachable s d) ↔ denoteR g (.reachable s d) p := by
+      intro p
+      simp only [eval, denoteR]
+      rw [mem_reachableIn, hD]
+      simp only [ihs.mem, ihd.mem]
+    refine ⟨?_, ?_, hm⟩
+    · simp only [eval]; exact ihd.desc.sublist (reachableIn_sublist g _ _)
+    · intro p hp
+      simp only [eval] at hp
+      exact ihd.lt p ((reachableIn_sublist g _ _).subset hp)
   | .headsRange r h fp none, hok => by
     have ihr := eval_spec g hw r hok.1
     have ihh := eval_spec g hw h hok.2.1
